@@ -191,7 +191,8 @@ PROPS["C13"] = {
     "assumptions": [
         "PROVED for all inputs (unit canon): the real in-place two-cursor text of canonicalize_path computes exactly the byte-level spec function cn::canon (one case per component kind, written from the statement), never writes or reads out of bounds (every assert_unchecked is a discharged assert, R3), and 1 <= len(result) <= len(input); preconditions: non-empty, <= 60 component starts",
         "PROVED for all inputs (spec-level lemmas over cn::canon, verified in unit canon): lemma_canon_canonical -- every output is in canonical form (cn::is_canonical: no empty or `.` component, `..` only leading, root kept; by induction over the run with the invariant that the output and every point the component stack can cut it back to are `good` prefixes); lemma_canon_fix -- every canonical string is a fixpoint; hence lemma_canon_idempotent: canon(canon(s)) == canon(s)",
-        "BOUNDED (labelled, not counted as proved): that the result denotes the same lexical location as the input (cn::location: rooted?, number of leading `..`, list of names) is checked inside Verus by `by (compute)` for every byte string of length <= 5 (quick) / <= 7 (thorough) over {a . / \\\\}, 1364 / 21844 strings, together with a re-check of idempotence and canonical form on the same strings",
+        "PROVED for all inputs: cn::lemma_canon_location -- canon(s) denotes the same lexical location as s (cn::location: rooted?, number of leading `..` above the start, list of names descended; proved by relating the run's output and component stack to the location accumulators, with a concatenation lemma for scanning at component boundaries).  The exhaustive `by (compute)` check of the same four statements over all strings of length <= 5 (quick) / <= 7 (thorough) over {a . / \\\\} is kept as a redundant cross-check of the lemmas' statements (it evaluates the spec functions on concrete strings)",
+
 
         "call sites: GraphFiles::{id_from_canonical, lookup} (trusted hash-map stubs) require a canonical name; discharged at Loader::path (manifest paths), Work::lookup (command-line names) and Work::record_finished (reported dependencies) using the axiom canon(canon(s)) == canon(s) on the uninterpreted char-level canon (its byte-level counterpart is cn::lemma_canon_idempotent; the char<->utf-8 link is the trusted string model); db::Reader::read_path (names read back from the log) is not checked",
         "TRUSTED: StackStack (MaybeUninit array, unsafe) modelled as a sequence (R8); String::as_mut_vec / Vec::set_len specs (unsafe code: the bytes left in the vector are the string afterwards -- that they stay valid UTF-8 is the code comment's argument, not checked); Vec<u8> length <= isize::MAX",
@@ -206,7 +207,7 @@ NOT_APPLICABLE = {
 LEVEL_TEXT = {
     "C13": {
         "text": "Unbounded proof (Verus) on the real text of canon.rs canonicalize_path: for every non-empty byte string with at most 60 component starts the in-place rewrite leaves exactly cn::canon(input) -- a recursive spec function with one case per component kind (empty and `.` removed, `..` removes the preceding kept component or is kept when there is none, root kept, everything else copied) -- with all indices in bounds, dst <= src, and 1 <= output length <= input length (loop invariant: run(input, src, data[..dst], stack) is constant).  Call sites Loader::path, Work::lookup and Work::record_finished hand only canonicalised names to the name->id map (precondition of the trusted map stubs).  Adequacy of the spec function (idempotent, canonical form, same location) is a BOUNDED exhaustive check by Verus `by (compute)` over all strings up to length 5/7 over {a . / \\}.",
-        "note": "proof (refinement, safety, length, idempotence, canonical form, call sites) + bounded (location equivalence of the spec function; not counted as proved).  Trusted: StackStack model, as_mut_vec/set_len, char-level idempotence axiom at call sites.",
+        "note": "proof (refinement, safety, length, idempotence, canonical form, location equivalence, call sites); the bounded compute check is redundant.  Trusted: StackStack model, as_mut_vec/set_len, char-level idempotence axiom at call sites.",
         "design_ref": "DESIGN.md §6 C13",
     },
     "C11": {
